@@ -308,12 +308,7 @@ func c20WalkerOne(run *Run, c c20Case) {
 		if nested {
 			run.count("key-nested")
 		}
-		// the crumb mutation lengthens the paths of nested occurrences only, so the shortest
-		// path is never one of the damaged ones: PathForKeyShortest keeps its own key
 		key := c.Fn
-		if nested && c.Fn == "x2jw.PathsForKey" {
-			key = "x2jw.PathsForKey-crumb"
-		}
 		cp := core.PathsForKey(c.Key)
 		if o.Panicked {
 			run.violation(Violation{Key: c.Fn + "-panic", What: c.Fn + " panicked", Input: c, Got: o.text(), Want: "no panic"})
@@ -327,8 +322,6 @@ func c20WalkerOne(run *Run, c c20Case) {
 			g, w := strings.Join(sortedCopy(got), " | "), strings.Join(sortedCopy(cp), " | ")
 			if g != w {
 				run.violation(Violation{Key: key, What: "x2j-wrapper.PathsForKey differs from Map.PathsForKey (as a set)", Input: c, Got: g, Want: w})
-			} else if nested {
-				run.count("key-nested-but-paths-equal") // would show that key_not_nested is not the narrowest side condition
 			}
 		} else {
 			g, w := shortestVerdict(o.Ret.(string), cp), shortestWant(cp)
@@ -362,11 +355,7 @@ func c20WalkerOne(run *Run, c c20Case) {
 		keys := strings.Split(c.Path, ".")
 		star := pathHasStar(c.Path)
 		if o.Panicked {
-			key := c.Fn + "-panic"
-			if star && hasEmptyKey(c.Map) {
-				key = "x2jw.valuesFromKeyPath-emptykey"
-			}
-			run.violation(Violation{Key: key, What: c.Fn + " panicked", Input: c, Got: o.text(), Want: "no panic"})
+			run.violation(Violation{Key: c.Fn + "-panic", What: c.Fn + " panicked", Input: c, Got: o.text(), Want: "no panic"})
 			return
 		}
 		got := o.Ret.([]interface{})
@@ -1344,24 +1333,6 @@ func c20ThinEval(c c20Case) (got, want string, ok bool) {
 }
 
 func c20ThinKey(c c20Case, got, want string) string {
-	switch c.Fn {
-	case "j2x.MapToJson":
-		if flag1(c.Flags) {
-			return "j2x.MapToJson-safe"
-		}
-	case "x2jw.CastNanInf":
-		if flag1(c.Flags) {
-			return "x2jw.CastNanInf-noop"
-		}
-	case "x2jw.PathsForTag", "x2jw.BytePathsForTag":
-		if c.Opts != nil {
-			c.Opts.apply()
-			defer restoreDefaults()
-		}
-		if m, err := decodeX(c); err == nil && keyNested(c.Key, mapOf(m)) {
-			return "x2jw.PathsForKey-crumb"
-		}
-	}
 	if strings.HasPrefix(got, "panic:") {
 		return c.Fn + "-panic"
 	}
